@@ -177,6 +177,50 @@ def gen_history(rng, bad_names=False, nops=None, raw=False):
     return 'H %d %s %s' % (ns, flags, ' '.join(ops))
 
 
+def gen_handshake_history(rng):
+    """aimed at the generation handshake: few keys on one or two servers, one or two nodes with L1 that fetch again and
+    again (so that their L1 records are revalidated and refilled many times), other nodes that keep replacing the values;
+    every stored value is distinct, so any stale answer is visible. A refill that records a wrong generation (own counter,
+    off by one, generation of another key) needs such a run of refills before a later store collides with it."""
+    ns = rng.choice([1, 1, 1, 2])
+    flags = rng.choice(['10', '10', '101', '110'])
+    l1c = [i for i, f in enumerate(flags) if f == '1']
+    other = [i for i, f in enumerate(flags) if f == '0']
+    keys = rng.sample([b'k', b'l', b'kk', b'\x80key', b'a\0b', b't'], rng.choice([1, 2, 2, 3]))
+    ops = []
+    seq = [0]
+
+    def store(c, k):
+        seq[0] += 1
+        ops.append('S:%d:%s:%s:%d:%s' % (c, hexs(k), hexs(b'v%d' % seq[0]), rng.choice([2000, 2000, 3000]),
+                                        trigs_field(rng.sample([b't', b'u'], rng.choice([0, 0, 0, 1])))))
+
+    def fetch(c, k):
+        ops.append('%s:%d:%s' % ('F' if rng.random() < 0.9 else 'G', c, hexs(k)))
+
+    for _ in range(rng.choice([1, 2])):          # fill the servers, fill every L1 (miss path), replace the values
+        for k in keys:
+            store(rng.choice(other), k)
+    for c in l1c:
+        for k in keys:
+            fetch(c, k)
+    for k in keys:
+        store(rng.choice(other), k)
+    for _ in range(rng.choice([1, 2, 3])):       # bursts of refills, then bursts of stores, then every L1 node reads every key
+        for _ in range(rng.randrange(0, 7)):
+            fetch(rng.choice(l1c), rng.choice(keys))
+        if rng.random() < 0.15:
+            ops.append('E:%d:%s' % (rng.choice(l1c), hexs(rng.choice(keys))))
+        for _ in range(rng.randrange(1, 5)):
+            store(rng.choice(other) if rng.random() < 0.9 else rng.choice(l1c), rng.choice(keys))
+        if rng.random() < 0.1:
+            ops.append('R:%d:%s' % (rng.randrange(len(flags)), hexs(rng.choice([b't', b'u']))))
+        for c in l1c:
+            for k in keys:
+                fetch(c, k)
+    return 'H %d %s %s' % (ns, flags, ' '.join(ops))
+
+
 def gen_raw_frame(rng, keys, trigs, now):
     """a frame as a foreign peer might send it; never one whose uint32 length sum wraps (UB in the server)"""
     k = rng.choice(keys) or b'k'
@@ -268,13 +312,16 @@ def exhaustive_small(maxlen):
 def gen_cases(ctx):
     rng = ctx.rng
     cases = []
-    cases += exhaustive_small(ctx.scale(4, 5))
-    # mixed L1 / no L1, the same alphabet on two servers with two keys that live on different servers
-    for _ in range(ctx.scale(2500, 30000)):
+    cases += exhaustive_small(ctx.scale(5, 6))
+    # mixed L1 / no L1, 1-3 servers, binary keys / values / names, raw frames of a foreign peer
+    for _ in range(ctx.scale(4000, 40000)):
         cases.append(gen_history(rng, raw=True))
-    for _ in range(ctx.scale(400, 4000)):
+    for _ in range(ctx.scale(500, 5000)):
         cases.append(gen_history(rng, bad_names=True))
+    # the generation handshake: long runs of L1 refills against stores by other nodes
     for _ in range(ctx.scale(1500, 20000)):
+        cases.append(gen_handshake_history(rng))
+    for _ in range(ctx.scale(3000, 30000)):
         cases.append(gen_probe(rng))
     # key spread: many keys, two and three servers, store on one client, fetch on another
     for _ in range(ctx.scale(150, 2000)):
@@ -516,10 +563,20 @@ def classify(case, out):
 
 
 def run(ctx):
+    import time
+    t0 = time.time()
+    phase = ctx.coverage.setdefault('phase_wall_s', {})
+
+    def mark(name):
+        nonlocal t0
+        phase[name] = round(time.time() - t0, 1)
+        t0 = time.time()
     for n, e in vlib.gen_coq(GEN) + gen_hash():
         ctx.broke('translator cxx2v failed on %s (tie to source broken)' % n, e)
+    mark('translate_hash_step')
     res = vlib.coq_props('C10')
     ctx.proof(res)
+    mark('coq_proofs_incl_lock_wait')
     ctx.coverage['trusted_base'] = [
         'Coq 8.16.1 kernel, vm_compute',
         'clang 14 JSON AST + tools/cxx2v.py statement translator driven by checks/C10.py:gen_hash (hash loop body of src/tcp_connector.cpp)',
@@ -538,9 +595,11 @@ def run(ctx):
     if not exe:
         ctx.broke('harness build failed', err)
         return
+    mark('harness_build')
     mexe, err = vlib.build_model('C10', 'C10_driver.ml', 'c10m')
     if not mexe:
         ctx.broke('model extraction/build failed', err)
+    mark('model_extraction_build_incl_lock_wait')
     if ctx.replay_cases is not None:
         cases = ctx.replay_cases
     else:
@@ -548,11 +607,14 @@ def run(ctx):
     ctx.coverage['rule'] = (
         'case = one history (H: n servers, L1 flag per client, list of store/fetch/rise/clear/evict/stats/tick/raw-frame operations) run '
         'against fresh tcp_cache_service instances and cache_over_ip clients, or one client-codec probe (P) against a capturing fake '
-        'server. Exhaustive: every history of length <= 4 (quick) / 5 (thorough) over an 8-operation alphabet (2 clients with L1, one '
+        'server. Exhaustive: every history of length <= 5 (quick) / 6 (thorough) over an 8-operation alphabet (2 clients with L1, one '
         'key, two values, one trigger, clock tick past the deadline, eviction) that contains a fetch. Random (seeded): histories of 3..30 '
+        'operations aimed at the generation handshake (bursts of L1 refills against bursts of stores of distinct values by other nodes); histories of '
         'operations over 1-3 servers, 2-3 clients, binary keys/values/trigger names, deadlines around the clock and at int64 extremes, '
         'raw frames of a foreign peer (malformed lengths, empty names, unknown opcodes), a separate stream with names the wire format '
         'cannot carry. A history is non-trivial when at least one fetch returned a value; distinct = distinct case lines.')
     ctx.coverage['exhaustive'] = False
-    ctx.coverage['exhaustive_parts'] = ['all histories of length <= %d over the 8-operation alphabet that contain a fetch' % ctx.scale(4, 5)]
-    vlib.differential(ctx, cases, exe, mexe, oracle, nontrivial, classify)
+    ctx.coverage['exhaustive_parts'] = ['all histories of length <= %d over the 8-operation alphabet that contain a fetch' % ctx.scale(5, 6)]
+    mark('case_generation')
+    vlib.differential(ctx, cases, exe, mexe, oracle, nontrivial, classify, jobs=8)
+    mark('differential_and_oracle')
